@@ -80,6 +80,7 @@ struct World {
     registered_pending: bool,
     // witnesses
     w_woken_by_add: bool,
+    w_woken_by_set: bool,
     w_ready_after_park: bool,
     w_immediate: bool,
     w_notified_at_register: bool,
@@ -110,6 +111,7 @@ impl World {
             parked: false,
             registered_pending: false,
             w_woken_by_add: false,
+            w_woken_by_set: false,
             w_ready_after_park: false,
             w_immediate: false,
             w_notified_at_register: false,
@@ -138,13 +140,22 @@ impl World {
         self.changed[s] = false;
     }
 
-    /// Returns true iff this call is the trigger of KF-C32-1: it turns the trigger value from false
-    /// to true while the waiter's notification sender is registered and not yet notified.
+    /// set_enabled_statuses; like add_communication_state it drains and notifies the registered
+    /// waiters when the trigger value is true afterwards (the defect KF-C32-1 found here — no
+    /// notification — was repaired by 02ad31f). Returns true iff this call turned the trigger value
+    /// false -> true while the waiter's sender was registered and not yet notified.
     fn op_set_enabled(&mut self, m: [bool; NK]) -> bool {
         let before = self.trig();
         self.sc.set_enabled_statuses(mask(m));
         self.enabled = m;
-        self.registered_pending && !before && self.trig()
+        let hit = self.registered_pending && !before && self.trig();
+        if self.trig() {
+            if self.registered_pending && self.parked {
+                self.w_woken_by_set = true;
+            }
+            self.registered_pending = false; // drained and notified
+        }
+        hit
     }
 
     /// The next step of the waiter (G, then R, then P, P, …).
@@ -212,8 +223,7 @@ impl World {
         );
     }
 
-    /// One symbolic worker slot (add | remove | set_enabled | nothing); the trigger of KF-C32-1 is
-    /// assumed away (negated trigger) before the obligations are evaluated.
+    /// One symbolic worker slot (add | remove | set_enabled | nothing).
     fn worker_slot(&mut self) {
         let op: u8 = kani::any();
         kani::assume(op < 4);
@@ -224,20 +234,17 @@ impl World {
             1 => self.op_remove(s),
             2 => {
                 let m: [bool; NK] = kani::any();
-                let hit = self.op_set_enabled(m);
-                kani::assume(!hit);
+                let _ = self.op_set_enabled(m);
             }
             _ => {}
         }
     }
 }
 
-/// Negated trigger of KF-C32-1. One complete wait call G, R, P, P interleaved with symbolic worker
-/// operations: G0 before the check, G1 between check and register, G2 between register and the
-/// first poll, G3 between the first and the second poll (each slot: add(s) | remove(s) |
-/// set_enabled_statuses(m) | nothing). A set_enabled_statuses call that turns the trigger value
-/// false -> true while the waiter is registered and not yet notified is assumed away.
-fn wait_interleaved_rest<const G0: usize, const G1: usize, const G2: usize, const G3: usize>() {
+/// One complete wait call G, R, P, P interleaved with symbolic worker operations: G0 before the
+/// check, G1 between check and register, G2 between register and the first poll, G3 between the
+/// first and the second poll (each slot: add(s) | remove(s) | set_enabled_statuses(m) | nothing).
+fn wait_interleaved<const G0: usize, const G1: usize, const G2: usize, const G3: usize>() {
     let mut w = World::new();
     // arbitrary enabled mask (linear step, no branching): a later add(s) may or may not trigger
     let m0: [bool; NK] = kani::any();
@@ -263,13 +270,15 @@ fn wait_interleaved_rest<const G0: usize, const G1: usize, const G2: usize, cons
     kani::cover!(G1 == 0 || w.w_notified_at_register, "G1 >= 1: status changed between check and register, notified at registration");
     kani::cover!(G1 + G2 == 0 || w.w_ready_unparked, "G1 + G2 >= 1: first poll Ready (notified before the waiter parked)");
     kani::cover!(G3 == 0 || (w.w_woken_by_add && w.w_ready_after_park), "G3 >= 1: parked waiter notified by add_communication_state, next poll Ready");
+    kani::cover!(G0 == 0 || G3 == 0 || w.w_woken_by_set, "G0, G3 >= 1: parked waiter notified by set_enabled_statuses enabling an already changed status");
     kani::cover!(w.pc == 2 && w.parked, "waiter still parked at the end (trigger value false)");
     core::mem::forget(w);
 }
 
-/// Trigger of KF-C32-1: a status `s` changes while it is disabled (symbolic mask m0 without s,
-/// symbolic s), the waiter checks (false), registers and optionally parks; then
-/// set_enabled_statuses(m1) with s enabled makes the trigger value true.
+/// The scenario that exposed KF-C32-1 (repaired by 02ad31f): a status `s` changes while it is
+/// disabled (symbolic mask m0 without s, symbolic s), the waiter checks (false), registers and
+/// optionally parks; then set_enabled_statuses(m1) with s enabled makes the trigger value true: the
+/// waiter must be notified (next poll Ready).
 fn enable_after_register() {
     let mut w = World::new();
     let m0: [bool; NK] = kani::any();
@@ -290,10 +299,11 @@ fn enable_after_register() {
     let m1: [bool; NK] = kani::any();
     let hit = w.op_set_enabled(m1);
     kani::assume(hit);
-    kani::cover!(park, "KF-C32-1 trigger with a parked waiter");
-    kani::cover!(!park, "KF-C32-1 trigger with a registered, not yet parked waiter");
+    kani::cover!(park, "status enabled after it changed, waiter parked");
+    kani::cover!(!park, "status enabled after it changed, waiter registered but not yet parked");
     w.check();
     w.op_waiter(); // P: must be Ready (parked or not)
+    assert!(w.pc == 3, "C32: no lost wake-up: a registered waiter is not left Pending while the trigger value is true");
     core::mem::forget(w);
 }
 
@@ -334,6 +344,256 @@ fn trigger_value_schedule<const K: usize>() {
 // =====================================================================================
 
 // @check props=C32 tier=quick
+// @desc trigger value: for every schedule of 3 operations from {add_communication_state(s), remove_communication_state(s), set_enabled_statuses(m)} (s one of 3 kinds, m any subset of them) from the default condition: after every step get_trigger_value() is true exactly when an enabled status has changed since it was last removed (also when the change happened while the status was disabled and it is enabled later)
+// @bounds k = 3 operations, 3 status kinds (mask bits 0, 8, 12), all 8 masks; unwind 14 = 13 iterations of the mask loop in DcpsStatusCondition::default() + 1
+// @assume critical_section::acquire/release stubbed by no-ops (support_cs.rs): a critical section is a block no other operation interleaves with
+// @assume AtomicUsize::fetch_sub stubbed (support_cs.rs fetch_sub_never_last): the shared state behind an Arc is never destroyed or freed; Drop impls of NotificationSender run for real
+// @assume alloc::raw_vec::min_non_zero_cap stubbed by a faithful copy that, after the concrete warm-up (one earlier completed wait: both Vecs of the condition have capacity), asserts amortized Vec growth unreachable (CHECKED obligation, support_cs.rs min_non_zero_cap_checked)
+// @enc dcps::status_condition::DcpsStatusCondition::add_communication_state
+// @enc dcps::status_condition::DcpsStatusCondition::remove_communication_state
+// @enc dcps::status_condition::DcpsStatusCondition::set_enabled_statuses
+// @enc dcps::status_condition::DcpsStatusCondition::get_trigger_value
+#[kani::proof]
+#[kani::unwind(14)]
+#[kani::stub(critical_section::acquire, super::support_cs::cs_acquire)]
+#[kani::stub(critical_section::release, super::support_cs::cs_release)]
+#[kani::stub(core::sync::atomic::Atomic::<usize>::fetch_sub, super::support_cs::fetch_sub_never_last)]
+#[kani::stub(alloc::raw_vec::min_non_zero_cap, super::support_cs::min_non_zero_cap_checked)]
+fn c32_trigger_value_schedule_k3() {
+    trigger_value_schedule::<3>();
+}
+
+// @check props=C32 tier=quick
+// @desc wake-ups: one complete wait call G (get_trigger_value), R (register_notification), P, P (polls of the NotificationReceiver) on a condition with an arbitrary enabled mask, interleaved with symbolic worker operations from {add_communication_state(s), remove_communication_state(s), set_enabled_statuses(m), nothing} in the slots: 1 before the check (G). Asserted: the value read at G and the final trigger value equal "an enabled status has changed"; wait returns immediately if it was true at G; a poll is never Pending while the trigger value is true (no lost wake-up, including a status change or the enabling of an already changed status between G and R and after the waiter parked)
+// @bounds 1 condition, 1 waiter, 3 status kinds (mask bits 0, 8, 12), symbolic initial mask, 1 symbolic worker slot(s) + 4 waiter steps; unwind 14 = 13 iterations of the mask loop in DcpsStatusCondition::default() + 1 (all other loops: <= 3 list elements)
+// @assume critical_section::acquire/release stubbed by no-ops (support_cs.rs): a critical section is a block no other operation interleaves with
+// @assume AtomicUsize::fetch_sub stubbed (support_cs.rs fetch_sub_never_last): the shared state behind an Arc is never destroyed or freed; Drop impls of NotificationSender run for real
+// @assume alloc::raw_vec::min_non_zero_cap stubbed by a faithful copy that, after the concrete warm-up (one earlier completed wait: both Vecs of the condition have capacity), asserts amortized Vec growth unreachable (CHECKED obligation, support_cs.rs min_non_zero_cap_checked)
+// @assume every access to the status condition is one atomic step (in the running system: one mail handled by the participant actor, status_condition_methods.rs); the async glue of WaitSetAsync::wait (mail + oneshot reply, check-all / register-all / await order) is mirrored by the waiter steps G, R, P, not executed; pinned by the source guard in vlib/ptab/channels.py
+// @assume polls use Waker::noop(): "the parked waiter is woken" is established as "NotificationSender::notify was called (next poll Ready)" + C34 (notify wakes the waker of the most recent Pending poll)
+// @enc dcps::status_condition::DcpsStatusCondition::add_communication_state
+// @enc dcps::status_condition::DcpsStatusCondition::remove_communication_state
+// @enc dcps::status_condition::DcpsStatusCondition::set_enabled_statuses
+// @enc dcps::status_condition::DcpsStatusCondition::get_trigger_value
+// @enc dcps::status_condition::DcpsStatusCondition::register_notification
+// @enc dcps::channels::notification::NotificationSender::notify
+// @enc <dcps::channels::notification::NotificationReceiver as Future>::poll
+#[kani::proof]
+#[kani::unwind(14)]
+#[kani::stub(critical_section::acquire, super::support_cs::cs_acquire)]
+#[kani::stub(critical_section::release, super::support_cs::cs_release)]
+#[kani::stub(core::sync::atomic::Atomic::<usize>::fetch_sub, super::support_cs::fetch_sub_never_last)]
+#[kani::stub(alloc::raw_vec::min_non_zero_cap, super::support_cs::min_non_zero_cap_checked)]
+fn c32_wait_interleaved_1000() {
+    wait_interleaved::<1, 0, 0, 0>();
+}
+
+// @check props=C32 tier=quick
+// @desc wake-ups: one complete wait call G (get_trigger_value), R (register_notification), P, P (polls of the NotificationReceiver) on a condition with an arbitrary enabled mask, interleaved with symbolic worker operations from {add_communication_state(s), remove_communication_state(s), set_enabled_statuses(m), nothing} in the slots: 1 between check (G) and register (R). Asserted: the value read at G and the final trigger value equal "an enabled status has changed"; wait returns immediately if it was true at G; a poll is never Pending while the trigger value is true (no lost wake-up, including a status change or the enabling of an already changed status between G and R and after the waiter parked)
+// @bounds 1 condition, 1 waiter, 3 status kinds (mask bits 0, 8, 12), symbolic initial mask, 1 symbolic worker slot(s) + 4 waiter steps; unwind 14 = 13 iterations of the mask loop in DcpsStatusCondition::default() + 1 (all other loops: <= 3 list elements)
+// @assume critical_section::acquire/release stubbed by no-ops (support_cs.rs): a critical section is a block no other operation interleaves with
+// @assume AtomicUsize::fetch_sub stubbed (support_cs.rs fetch_sub_never_last): the shared state behind an Arc is never destroyed or freed; Drop impls of NotificationSender run for real
+// @assume alloc::raw_vec::min_non_zero_cap stubbed by a faithful copy that, after the concrete warm-up (one earlier completed wait: both Vecs of the condition have capacity), asserts amortized Vec growth unreachable (CHECKED obligation, support_cs.rs min_non_zero_cap_checked)
+// @assume every access to the status condition is one atomic step (in the running system: one mail handled by the participant actor, status_condition_methods.rs); the async glue of WaitSetAsync::wait (mail + oneshot reply, check-all / register-all / await order) is mirrored by the waiter steps G, R, P, not executed; pinned by the source guard in vlib/ptab/channels.py
+// @assume polls use Waker::noop(): "the parked waiter is woken" is established as "NotificationSender::notify was called (next poll Ready)" + C34 (notify wakes the waker of the most recent Pending poll)
+// @enc dcps::status_condition::DcpsStatusCondition::add_communication_state
+// @enc dcps::status_condition::DcpsStatusCondition::remove_communication_state
+// @enc dcps::status_condition::DcpsStatusCondition::set_enabled_statuses
+// @enc dcps::status_condition::DcpsStatusCondition::get_trigger_value
+// @enc dcps::status_condition::DcpsStatusCondition::register_notification
+// @enc dcps::channels::notification::NotificationSender::notify
+// @enc <dcps::channels::notification::NotificationReceiver as Future>::poll
+#[kani::proof]
+#[kani::unwind(14)]
+#[kani::stub(critical_section::acquire, super::support_cs::cs_acquire)]
+#[kani::stub(critical_section::release, super::support_cs::cs_release)]
+#[kani::stub(core::sync::atomic::Atomic::<usize>::fetch_sub, super::support_cs::fetch_sub_never_last)]
+#[kani::stub(alloc::raw_vec::min_non_zero_cap, super::support_cs::min_non_zero_cap_checked)]
+fn c32_wait_interleaved_0100() {
+    wait_interleaved::<0, 1, 0, 0>();
+}
+
+// @check props=C32 tier=quick
+// @desc wake-ups: one complete wait call G (get_trigger_value), R (register_notification), P, P (polls of the NotificationReceiver) on a condition with an arbitrary enabled mask, interleaved with symbolic worker operations from {add_communication_state(s), remove_communication_state(s), set_enabled_statuses(m), nothing} in the slots: 1 between register (R) and the first poll. Asserted: the value read at G and the final trigger value equal "an enabled status has changed"; wait returns immediately if it was true at G; a poll is never Pending while the trigger value is true (no lost wake-up, including a status change or the enabling of an already changed status between G and R and after the waiter parked)
+// @bounds 1 condition, 1 waiter, 3 status kinds (mask bits 0, 8, 12), symbolic initial mask, 1 symbolic worker slot(s) + 4 waiter steps; unwind 14 = 13 iterations of the mask loop in DcpsStatusCondition::default() + 1 (all other loops: <= 3 list elements)
+// @assume critical_section::acquire/release stubbed by no-ops (support_cs.rs): a critical section is a block no other operation interleaves with
+// @assume AtomicUsize::fetch_sub stubbed (support_cs.rs fetch_sub_never_last): the shared state behind an Arc is never destroyed or freed; Drop impls of NotificationSender run for real
+// @assume alloc::raw_vec::min_non_zero_cap stubbed by a faithful copy that, after the concrete warm-up (one earlier completed wait: both Vecs of the condition have capacity), asserts amortized Vec growth unreachable (CHECKED obligation, support_cs.rs min_non_zero_cap_checked)
+// @assume every access to the status condition is one atomic step (in the running system: one mail handled by the participant actor, status_condition_methods.rs); the async glue of WaitSetAsync::wait (mail + oneshot reply, check-all / register-all / await order) is mirrored by the waiter steps G, R, P, not executed; pinned by the source guard in vlib/ptab/channels.py
+// @assume polls use Waker::noop(): "the parked waiter is woken" is established as "NotificationSender::notify was called (next poll Ready)" + C34 (notify wakes the waker of the most recent Pending poll)
+// @enc dcps::status_condition::DcpsStatusCondition::add_communication_state
+// @enc dcps::status_condition::DcpsStatusCondition::remove_communication_state
+// @enc dcps::status_condition::DcpsStatusCondition::set_enabled_statuses
+// @enc dcps::status_condition::DcpsStatusCondition::get_trigger_value
+// @enc dcps::status_condition::DcpsStatusCondition::register_notification
+// @enc dcps::channels::notification::NotificationSender::notify
+// @enc <dcps::channels::notification::NotificationReceiver as Future>::poll
+#[kani::proof]
+#[kani::unwind(14)]
+#[kani::stub(critical_section::acquire, super::support_cs::cs_acquire)]
+#[kani::stub(critical_section::release, super::support_cs::cs_release)]
+#[kani::stub(core::sync::atomic::Atomic::<usize>::fetch_sub, super::support_cs::fetch_sub_never_last)]
+#[kani::stub(alloc::raw_vec::min_non_zero_cap, super::support_cs::min_non_zero_cap_checked)]
+fn c32_wait_interleaved_0010() {
+    wait_interleaved::<0, 0, 1, 0>();
+}
+
+// @check props=C32 tier=quick
+// @desc wake-ups: one complete wait call G (get_trigger_value), R (register_notification), P, P (polls of the NotificationReceiver) on a condition with an arbitrary enabled mask, interleaved with symbolic worker operations from {add_communication_state(s), remove_communication_state(s), set_enabled_statuses(m), nothing} in the slots: 1 between the first and the second poll. Asserted: the value read at G and the final trigger value equal "an enabled status has changed"; wait returns immediately if it was true at G; a poll is never Pending while the trigger value is true (no lost wake-up, including a status change or the enabling of an already changed status between G and R and after the waiter parked)
+// @bounds 1 condition, 1 waiter, 3 status kinds (mask bits 0, 8, 12), symbolic initial mask, 1 symbolic worker slot(s) + 4 waiter steps; unwind 14 = 13 iterations of the mask loop in DcpsStatusCondition::default() + 1 (all other loops: <= 3 list elements)
+// @assume critical_section::acquire/release stubbed by no-ops (support_cs.rs): a critical section is a block no other operation interleaves with
+// @assume AtomicUsize::fetch_sub stubbed (support_cs.rs fetch_sub_never_last): the shared state behind an Arc is never destroyed or freed; Drop impls of NotificationSender run for real
+// @assume alloc::raw_vec::min_non_zero_cap stubbed by a faithful copy that, after the concrete warm-up (one earlier completed wait: both Vecs of the condition have capacity), asserts amortized Vec growth unreachable (CHECKED obligation, support_cs.rs min_non_zero_cap_checked)
+// @assume every access to the status condition is one atomic step (in the running system: one mail handled by the participant actor, status_condition_methods.rs); the async glue of WaitSetAsync::wait (mail + oneshot reply, check-all / register-all / await order) is mirrored by the waiter steps G, R, P, not executed; pinned by the source guard in vlib/ptab/channels.py
+// @assume polls use Waker::noop(): "the parked waiter is woken" is established as "NotificationSender::notify was called (next poll Ready)" + C34 (notify wakes the waker of the most recent Pending poll)
+// @enc dcps::status_condition::DcpsStatusCondition::add_communication_state
+// @enc dcps::status_condition::DcpsStatusCondition::remove_communication_state
+// @enc dcps::status_condition::DcpsStatusCondition::set_enabled_statuses
+// @enc dcps::status_condition::DcpsStatusCondition::get_trigger_value
+// @enc dcps::status_condition::DcpsStatusCondition::register_notification
+// @enc dcps::channels::notification::NotificationSender::notify
+// @enc <dcps::channels::notification::NotificationReceiver as Future>::poll
+#[kani::proof]
+#[kani::unwind(14)]
+#[kani::stub(critical_section::acquire, super::support_cs::cs_acquire)]
+#[kani::stub(critical_section::release, super::support_cs::cs_release)]
+#[kani::stub(core::sync::atomic::Atomic::<usize>::fetch_sub, super::support_cs::fetch_sub_never_last)]
+#[kani::stub(alloc::raw_vec::min_non_zero_cap, super::support_cs::min_non_zero_cap_checked)]
+fn c32_wait_interleaved_0001() {
+    wait_interleaved::<0, 0, 0, 1>();
+}
+
+// @check props=C32 tier=quick
+// @desc wake-up through enabling (the scenario that exposed KF-C32-1, repaired by 02ad31f): set_enabled_statuses(m0), add_communication_state(s) with s disabled in m0, waiter G (false), R, optionally P (Pending), then set_enabled_statuses(m1) that enables s: the waiter is notified (next poll Ready)
+// @bounds one operation sequence, symbolic m0, s, m1, symbolic "waiter parked" flag; 3 status kinds; unwind 14
+// @assume critical_section::acquire/release stubbed by no-ops (support_cs.rs): a critical section is a block no other operation interleaves with
+// @assume AtomicUsize::fetch_sub stubbed (support_cs.rs fetch_sub_never_last): the shared state behind an Arc is never destroyed or freed; Drop impls of NotificationSender run for real
+// @assume alloc::raw_vec::min_non_zero_cap stubbed by a faithful copy that, after the concrete warm-up (one earlier completed wait: both Vecs of the condition have capacity), asserts amortized Vec growth unreachable (CHECKED obligation, support_cs.rs min_non_zero_cap_checked)
+// @assume every access to the status condition is one atomic step (in the running system: one mail handled by the participant actor, status_condition_methods.rs); the async glue of WaitSetAsync::wait (mail + oneshot reply, check-all / register-all / await order) is mirrored by the waiter steps G, R, P, not executed; pinned by the source guard in vlib/ptab/channels.py
+// @assume polls use Waker::noop(): "the parked waiter is woken" is established as "NotificationSender::notify was called (next poll Ready)" + C34 (notify wakes the waker of the most recent Pending poll)
+// @assume scenario: s is disabled in m0 and enabled in m1 (kani::assume on the shadow model)
+// @enc dcps::status_condition::DcpsStatusCondition::add_communication_state
+// @enc dcps::status_condition::DcpsStatusCondition::remove_communication_state
+// @enc dcps::status_condition::DcpsStatusCondition::set_enabled_statuses
+// @enc dcps::status_condition::DcpsStatusCondition::get_trigger_value
+// @enc dcps::status_condition::DcpsStatusCondition::register_notification
+// @enc dcps::channels::notification::NotificationSender::notify
+// @enc <dcps::channels::notification::NotificationReceiver as Future>::poll
+#[kani::proof]
+#[kani::unwind(14)]
+#[kani::stub(critical_section::acquire, super::support_cs::cs_acquire)]
+#[kani::stub(critical_section::release, super::support_cs::cs_release)]
+#[kani::stub(core::sync::atomic::Atomic::<usize>::fetch_sub, super::support_cs::fetch_sub_never_last)]
+#[kani::stub(alloc::raw_vec::min_non_zero_cap, super::support_cs::min_non_zero_cap_checked)]
+fn c32_enable_after_register() {
+    enable_after_register();
+}
+
+// =====================================================================================
+// thorough tier: two symbolic worker slots, longer trigger-value schedule
+// =====================================================================================
+
+// @check props=C32 tier=thorough timeout=1500
+// @desc wake-ups: one complete wait call G (get_trigger_value), R (register_notification), P, P (polls of the NotificationReceiver) on a condition with an arbitrary enabled mask, interleaved with symbolic worker operations from {add_communication_state(s), remove_communication_state(s), set_enabled_statuses(m), nothing} in the slots: 1 before the check (G); 1 between the first and the second poll. Asserted: the value read at G and the final trigger value equal "an enabled status has changed"; wait returns immediately if it was true at G; a poll is never Pending while the trigger value is true (no lost wake-up, including a status change or the enabling of an already changed status between G and R and after the waiter parked)
+// @bounds 1 condition, 1 waiter, 3 status kinds (mask bits 0, 8, 12), symbolic initial mask, 2 symbolic worker slot(s) + 4 waiter steps; unwind 14 = 13 iterations of the mask loop in DcpsStatusCondition::default() + 1 (all other loops: <= 3 list elements)
+// @assume critical_section::acquire/release stubbed by no-ops (support_cs.rs): a critical section is a block no other operation interleaves with
+// @assume AtomicUsize::fetch_sub stubbed (support_cs.rs fetch_sub_never_last): the shared state behind an Arc is never destroyed or freed; Drop impls of NotificationSender run for real
+// @assume alloc::raw_vec::min_non_zero_cap stubbed by a faithful copy that, after the concrete warm-up (one earlier completed wait: both Vecs of the condition have capacity), asserts amortized Vec growth unreachable (CHECKED obligation, support_cs.rs min_non_zero_cap_checked)
+// @assume every access to the status condition is one atomic step (in the running system: one mail handled by the participant actor, status_condition_methods.rs); the async glue of WaitSetAsync::wait (mail + oneshot reply, check-all / register-all / await order) is mirrored by the waiter steps G, R, P, not executed; pinned by the source guard in vlib/ptab/channels.py
+// @assume polls use Waker::noop(): "the parked waiter is woken" is established as "NotificationSender::notify was called (next poll Ready)" + C34 (notify wakes the waker of the most recent Pending poll)
+// @enc dcps::status_condition::DcpsStatusCondition::add_communication_state
+// @enc dcps::status_condition::DcpsStatusCondition::remove_communication_state
+// @enc dcps::status_condition::DcpsStatusCondition::set_enabled_statuses
+// @enc dcps::status_condition::DcpsStatusCondition::get_trigger_value
+// @enc dcps::status_condition::DcpsStatusCondition::register_notification
+// @enc dcps::channels::notification::NotificationSender::notify
+// @enc <dcps::channels::notification::NotificationReceiver as Future>::poll
+#[kani::proof]
+#[kani::unwind(14)]
+#[kani::stub(critical_section::acquire, super::support_cs::cs_acquire)]
+#[kani::stub(critical_section::release, super::support_cs::cs_release)]
+#[kani::stub(core::sync::atomic::Atomic::<usize>::fetch_sub, super::support_cs::fetch_sub_never_last)]
+#[kani::stub(alloc::raw_vec::min_non_zero_cap, super::support_cs::min_non_zero_cap_checked)]
+fn c32_wait_interleaved_1001() {
+    wait_interleaved::<1, 0, 0, 1>();
+}
+
+// @check props=C32 tier=thorough timeout=1500
+// @desc wake-ups: one complete wait call G (get_trigger_value), R (register_notification), P, P (polls of the NotificationReceiver) on a condition with an arbitrary enabled mask, interleaved with symbolic worker operations from {add_communication_state(s), remove_communication_state(s), set_enabled_statuses(m), nothing} in the slots: 1 between check (G) and register (R); 1 between the first and the second poll. Asserted: the value read at G and the final trigger value equal "an enabled status has changed"; wait returns immediately if it was true at G; a poll is never Pending while the trigger value is true (no lost wake-up, including a status change or the enabling of an already changed status between G and R and after the waiter parked)
+// @bounds 1 condition, 1 waiter, 3 status kinds (mask bits 0, 8, 12), symbolic initial mask, 2 symbolic worker slot(s) + 4 waiter steps; unwind 14 = 13 iterations of the mask loop in DcpsStatusCondition::default() + 1 (all other loops: <= 3 list elements)
+// @assume critical_section::acquire/release stubbed by no-ops (support_cs.rs): a critical section is a block no other operation interleaves with
+// @assume AtomicUsize::fetch_sub stubbed (support_cs.rs fetch_sub_never_last): the shared state behind an Arc is never destroyed or freed; Drop impls of NotificationSender run for real
+// @assume alloc::raw_vec::min_non_zero_cap stubbed by a faithful copy that, after the concrete warm-up (one earlier completed wait: both Vecs of the condition have capacity), asserts amortized Vec growth unreachable (CHECKED obligation, support_cs.rs min_non_zero_cap_checked)
+// @assume every access to the status condition is one atomic step (in the running system: one mail handled by the participant actor, status_condition_methods.rs); the async glue of WaitSetAsync::wait (mail + oneshot reply, check-all / register-all / await order) is mirrored by the waiter steps G, R, P, not executed; pinned by the source guard in vlib/ptab/channels.py
+// @assume polls use Waker::noop(): "the parked waiter is woken" is established as "NotificationSender::notify was called (next poll Ready)" + C34 (notify wakes the waker of the most recent Pending poll)
+// @enc dcps::status_condition::DcpsStatusCondition::add_communication_state
+// @enc dcps::status_condition::DcpsStatusCondition::remove_communication_state
+// @enc dcps::status_condition::DcpsStatusCondition::set_enabled_statuses
+// @enc dcps::status_condition::DcpsStatusCondition::get_trigger_value
+// @enc dcps::status_condition::DcpsStatusCondition::register_notification
+// @enc dcps::channels::notification::NotificationSender::notify
+// @enc <dcps::channels::notification::NotificationReceiver as Future>::poll
+#[kani::proof]
+#[kani::unwind(14)]
+#[kani::stub(critical_section::acquire, super::support_cs::cs_acquire)]
+#[kani::stub(critical_section::release, super::support_cs::cs_release)]
+#[kani::stub(core::sync::atomic::Atomic::<usize>::fetch_sub, super::support_cs::fetch_sub_never_last)]
+#[kani::stub(alloc::raw_vec::min_non_zero_cap, super::support_cs::min_non_zero_cap_checked)]
+fn c32_wait_interleaved_0101() {
+    wait_interleaved::<0, 1, 0, 1>();
+}
+
+// @check props=C32 tier=thorough timeout=1500
+// @desc wake-ups: one complete wait call G (get_trigger_value), R (register_notification), P, P (polls of the NotificationReceiver) on a condition with an arbitrary enabled mask, interleaved with symbolic worker operations from {add_communication_state(s), remove_communication_state(s), set_enabled_statuses(m), nothing} in the slots: 1 before the check (G); 1 between check (G) and register (R). Asserted: the value read at G and the final trigger value equal "an enabled status has changed"; wait returns immediately if it was true at G; a poll is never Pending while the trigger value is true (no lost wake-up, including a status change or the enabling of an already changed status between G and R and after the waiter parked)
+// @bounds 1 condition, 1 waiter, 3 status kinds (mask bits 0, 8, 12), symbolic initial mask, 2 symbolic worker slot(s) + 4 waiter steps; unwind 14 = 13 iterations of the mask loop in DcpsStatusCondition::default() + 1 (all other loops: <= 3 list elements)
+// @assume critical_section::acquire/release stubbed by no-ops (support_cs.rs): a critical section is a block no other operation interleaves with
+// @assume AtomicUsize::fetch_sub stubbed (support_cs.rs fetch_sub_never_last): the shared state behind an Arc is never destroyed or freed; Drop impls of NotificationSender run for real
+// @assume alloc::raw_vec::min_non_zero_cap stubbed by a faithful copy that, after the concrete warm-up (one earlier completed wait: both Vecs of the condition have capacity), asserts amortized Vec growth unreachable (CHECKED obligation, support_cs.rs min_non_zero_cap_checked)
+// @assume every access to the status condition is one atomic step (in the running system: one mail handled by the participant actor, status_condition_methods.rs); the async glue of WaitSetAsync::wait (mail + oneshot reply, check-all / register-all / await order) is mirrored by the waiter steps G, R, P, not executed; pinned by the source guard in vlib/ptab/channels.py
+// @assume polls use Waker::noop(): "the parked waiter is woken" is established as "NotificationSender::notify was called (next poll Ready)" + C34 (notify wakes the waker of the most recent Pending poll)
+// @enc dcps::status_condition::DcpsStatusCondition::add_communication_state
+// @enc dcps::status_condition::DcpsStatusCondition::remove_communication_state
+// @enc dcps::status_condition::DcpsStatusCondition::set_enabled_statuses
+// @enc dcps::status_condition::DcpsStatusCondition::get_trigger_value
+// @enc dcps::status_condition::DcpsStatusCondition::register_notification
+// @enc dcps::channels::notification::NotificationSender::notify
+// @enc <dcps::channels::notification::NotificationReceiver as Future>::poll
+#[kani::proof]
+#[kani::unwind(14)]
+#[kani::stub(critical_section::acquire, super::support_cs::cs_acquire)]
+#[kani::stub(critical_section::release, super::support_cs::cs_release)]
+#[kani::stub(core::sync::atomic::Atomic::<usize>::fetch_sub, super::support_cs::fetch_sub_never_last)]
+#[kani::stub(alloc::raw_vec::min_non_zero_cap, super::support_cs::min_non_zero_cap_checked)]
+fn c32_wait_interleaved_1100() {
+    wait_interleaved::<1, 1, 0, 0>();
+}
+
+// @check props=C32 tier=thorough timeout=1500
+// @desc wake-ups: one complete wait call G (get_trigger_value), R (register_notification), P, P (polls of the NotificationReceiver) on a condition with an arbitrary enabled mask, interleaved with symbolic worker operations from {add_communication_state(s), remove_communication_state(s), set_enabled_statuses(m), nothing} in the slots: 1 between register (R) and the first poll; 1 between the first and the second poll. Asserted: the value read at G and the final trigger value equal "an enabled status has changed"; wait returns immediately if it was true at G; a poll is never Pending while the trigger value is true (no lost wake-up, including a status change or the enabling of an already changed status between G and R and after the waiter parked)
+// @bounds 1 condition, 1 waiter, 3 status kinds (mask bits 0, 8, 12), symbolic initial mask, 2 symbolic worker slot(s) + 4 waiter steps; unwind 14 = 13 iterations of the mask loop in DcpsStatusCondition::default() + 1 (all other loops: <= 3 list elements)
+// @assume critical_section::acquire/release stubbed by no-ops (support_cs.rs): a critical section is a block no other operation interleaves with
+// @assume AtomicUsize::fetch_sub stubbed (support_cs.rs fetch_sub_never_last): the shared state behind an Arc is never destroyed or freed; Drop impls of NotificationSender run for real
+// @assume alloc::raw_vec::min_non_zero_cap stubbed by a faithful copy that, after the concrete warm-up (one earlier completed wait: both Vecs of the condition have capacity), asserts amortized Vec growth unreachable (CHECKED obligation, support_cs.rs min_non_zero_cap_checked)
+// @assume every access to the status condition is one atomic step (in the running system: one mail handled by the participant actor, status_condition_methods.rs); the async glue of WaitSetAsync::wait (mail + oneshot reply, check-all / register-all / await order) is mirrored by the waiter steps G, R, P, not executed; pinned by the source guard in vlib/ptab/channels.py
+// @assume polls use Waker::noop(): "the parked waiter is woken" is established as "NotificationSender::notify was called (next poll Ready)" + C34 (notify wakes the waker of the most recent Pending poll)
+// @enc dcps::status_condition::DcpsStatusCondition::add_communication_state
+// @enc dcps::status_condition::DcpsStatusCondition::remove_communication_state
+// @enc dcps::status_condition::DcpsStatusCondition::set_enabled_statuses
+// @enc dcps::status_condition::DcpsStatusCondition::get_trigger_value
+// @enc dcps::status_condition::DcpsStatusCondition::register_notification
+// @enc dcps::channels::notification::NotificationSender::notify
+// @enc <dcps::channels::notification::NotificationReceiver as Future>::poll
+#[kani::proof]
+#[kani::unwind(14)]
+#[kani::stub(critical_section::acquire, super::support_cs::cs_acquire)]
+#[kani::stub(critical_section::release, super::support_cs::cs_release)]
+#[kani::stub(core::sync::atomic::Atomic::<usize>::fetch_sub, super::support_cs::fetch_sub_never_last)]
+#[kani::stub(alloc::raw_vec::min_non_zero_cap, super::support_cs::min_non_zero_cap_checked)]
+fn c32_wait_interleaved_0011() {
+    wait_interleaved::<0, 0, 1, 1>();
+}
+
+// @check props=C32 tier=thorough timeout=1500
 // @desc trigger value: for every schedule of 4 operations from {add_communication_state(s), remove_communication_state(s), set_enabled_statuses(m)} (s one of 3 kinds, m any subset of them) from the default condition: after every step get_trigger_value() is true exactly when an enabled status has changed since it was last removed (also when the change happened while the status was disabled and it is enabled later)
 // @bounds k = 4 operations, 3 status kinds (mask bits 0, 8, 12), all 8 masks; unwind 14 = 13 iterations of the mask loop in DcpsStatusCondition::default() + 1
 // @assume critical_section::acquire/release stubbed by no-ops (support_cs.rs): a critical section is a block no other operation interleaves with
@@ -351,244 +611,6 @@ fn trigger_value_schedule<const K: usize>() {
 #[kani::stub(alloc::raw_vec::min_non_zero_cap, super::support_cs::min_non_zero_cap_checked)]
 fn c32_trigger_value_schedule_k4() {
     trigger_value_schedule::<4>();
-}
-
-// @check props=C32 tier=quick
-// @desc wake-ups (negated trigger of KF-C32-1): one complete wait call G (get_trigger_value), R (register_notification), P, P (polls of the NotificationReceiver) on a condition with an arbitrary enabled mask, interleaved with symbolic worker operations from {add_communication_state(s), remove_communication_state(s), set_enabled_statuses(m), nothing} in the slots: 1 before the check (G). Asserted: the value read at G and the final trigger value equal "an enabled status has changed"; wait returns immediately if it was true at G; a poll is never Pending while the trigger value is true (no lost wake-up, including a status change between G and R and one after the waiter parked)
-// @bounds 1 condition, 1 waiter, 3 status kinds (mask bits 0, 8, 12), symbolic initial mask, 1 symbolic worker slot(s) + 4 waiter steps; unwind 14 = 13 iterations of the mask loop in DcpsStatusCondition::default() + 1 (all other loops: <= 3 list elements)
-// @assume critical_section::acquire/release stubbed by no-ops (support_cs.rs): a critical section is a block no other operation interleaves with
-// @assume AtomicUsize::fetch_sub stubbed (support_cs.rs fetch_sub_never_last): the shared state behind an Arc is never destroyed or freed; Drop impls of NotificationSender run for real
-// @assume alloc::raw_vec::min_non_zero_cap stubbed by a faithful copy that, after the concrete warm-up (one earlier completed wait: both Vecs of the condition have capacity), asserts amortized Vec growth unreachable (CHECKED obligation, support_cs.rs min_non_zero_cap_checked)
-// @assume every access to the status condition is one atomic step (in the running system: one mail handled by the participant actor, status_condition_methods.rs); the async glue of WaitSetAsync::wait (mail + oneshot reply, check-all / register-all / await order) is mirrored by the waiter steps G, R, P, not executed; pinned by the source guard in vlib/ptab/channels.py
-// @assume polls use Waker::noop(): "the parked waiter is woken" is established as "NotificationSender::notify was called (next poll Ready)" + C34 (notify wakes the waker of the most recent Pending poll)
-// @assume negated trigger of KF-C32-1: kani::assume(false) on a set_enabled_statuses call that turns the trigger value false -> true while the waiter's sender is registered and not yet notified
-// @enc dcps::status_condition::DcpsStatusCondition::add_communication_state
-// @enc dcps::status_condition::DcpsStatusCondition::remove_communication_state
-// @enc dcps::status_condition::DcpsStatusCondition::set_enabled_statuses
-// @enc dcps::status_condition::DcpsStatusCondition::get_trigger_value
-// @enc dcps::status_condition::DcpsStatusCondition::register_notification
-// @enc dcps::channels::notification::NotificationSender::notify
-// @enc <dcps::channels::notification::NotificationReceiver as Future>::poll
-#[kani::proof]
-#[kani::unwind(14)]
-#[kani::stub(critical_section::acquire, super::support_cs::cs_acquire)]
-#[kani::stub(critical_section::release, super::support_cs::cs_release)]
-#[kani::stub(core::sync::atomic::Atomic::<usize>::fetch_sub, super::support_cs::fetch_sub_never_last)]
-#[kani::stub(alloc::raw_vec::min_non_zero_cap, super::support_cs::min_non_zero_cap_checked)]
-fn c32_wait_interleaved_1000__rest() {
-    wait_interleaved_rest::<1, 0, 0, 0>();
-}
-
-// @check props=C32 tier=quick
-// @desc wake-ups (negated trigger of KF-C32-1): one complete wait call G (get_trigger_value), R (register_notification), P, P (polls of the NotificationReceiver) on a condition with an arbitrary enabled mask, interleaved with symbolic worker operations from {add_communication_state(s), remove_communication_state(s), set_enabled_statuses(m), nothing} in the slots: 1 between check (G) and register (R). Asserted: the value read at G and the final trigger value equal "an enabled status has changed"; wait returns immediately if it was true at G; a poll is never Pending while the trigger value is true (no lost wake-up, including a status change between G and R and one after the waiter parked)
-// @bounds 1 condition, 1 waiter, 3 status kinds (mask bits 0, 8, 12), symbolic initial mask, 1 symbolic worker slot(s) + 4 waiter steps; unwind 14 = 13 iterations of the mask loop in DcpsStatusCondition::default() + 1 (all other loops: <= 3 list elements)
-// @assume critical_section::acquire/release stubbed by no-ops (support_cs.rs): a critical section is a block no other operation interleaves with
-// @assume AtomicUsize::fetch_sub stubbed (support_cs.rs fetch_sub_never_last): the shared state behind an Arc is never destroyed or freed; Drop impls of NotificationSender run for real
-// @assume alloc::raw_vec::min_non_zero_cap stubbed by a faithful copy that, after the concrete warm-up (one earlier completed wait: both Vecs of the condition have capacity), asserts amortized Vec growth unreachable (CHECKED obligation, support_cs.rs min_non_zero_cap_checked)
-// @assume every access to the status condition is one atomic step (in the running system: one mail handled by the participant actor, status_condition_methods.rs); the async glue of WaitSetAsync::wait (mail + oneshot reply, check-all / register-all / await order) is mirrored by the waiter steps G, R, P, not executed; pinned by the source guard in vlib/ptab/channels.py
-// @assume polls use Waker::noop(): "the parked waiter is woken" is established as "NotificationSender::notify was called (next poll Ready)" + C34 (notify wakes the waker of the most recent Pending poll)
-// @assume negated trigger of KF-C32-1: kani::assume(false) on a set_enabled_statuses call that turns the trigger value false -> true while the waiter's sender is registered and not yet notified
-// @enc dcps::status_condition::DcpsStatusCondition::add_communication_state
-// @enc dcps::status_condition::DcpsStatusCondition::remove_communication_state
-// @enc dcps::status_condition::DcpsStatusCondition::set_enabled_statuses
-// @enc dcps::status_condition::DcpsStatusCondition::get_trigger_value
-// @enc dcps::status_condition::DcpsStatusCondition::register_notification
-// @enc dcps::channels::notification::NotificationSender::notify
-// @enc <dcps::channels::notification::NotificationReceiver as Future>::poll
-#[kani::proof]
-#[kani::unwind(14)]
-#[kani::stub(critical_section::acquire, super::support_cs::cs_acquire)]
-#[kani::stub(critical_section::release, super::support_cs::cs_release)]
-#[kani::stub(core::sync::atomic::Atomic::<usize>::fetch_sub, super::support_cs::fetch_sub_never_last)]
-#[kani::stub(alloc::raw_vec::min_non_zero_cap, super::support_cs::min_non_zero_cap_checked)]
-fn c32_wait_interleaved_0100__rest() {
-    wait_interleaved_rest::<0, 1, 0, 0>();
-}
-
-// @check props=C32 tier=quick
-// @desc wake-ups (negated trigger of KF-C32-1): one complete wait call G (get_trigger_value), R (register_notification), P, P (polls of the NotificationReceiver) on a condition with an arbitrary enabled mask, interleaved with symbolic worker operations from {add_communication_state(s), remove_communication_state(s), set_enabled_statuses(m), nothing} in the slots: 1 between register (R) and the first poll. Asserted: the value read at G and the final trigger value equal "an enabled status has changed"; wait returns immediately if it was true at G; a poll is never Pending while the trigger value is true (no lost wake-up, including a status change between G and R and one after the waiter parked)
-// @bounds 1 condition, 1 waiter, 3 status kinds (mask bits 0, 8, 12), symbolic initial mask, 1 symbolic worker slot(s) + 4 waiter steps; unwind 14 = 13 iterations of the mask loop in DcpsStatusCondition::default() + 1 (all other loops: <= 3 list elements)
-// @assume critical_section::acquire/release stubbed by no-ops (support_cs.rs): a critical section is a block no other operation interleaves with
-// @assume AtomicUsize::fetch_sub stubbed (support_cs.rs fetch_sub_never_last): the shared state behind an Arc is never destroyed or freed; Drop impls of NotificationSender run for real
-// @assume alloc::raw_vec::min_non_zero_cap stubbed by a faithful copy that, after the concrete warm-up (one earlier completed wait: both Vecs of the condition have capacity), asserts amortized Vec growth unreachable (CHECKED obligation, support_cs.rs min_non_zero_cap_checked)
-// @assume every access to the status condition is one atomic step (in the running system: one mail handled by the participant actor, status_condition_methods.rs); the async glue of WaitSetAsync::wait (mail + oneshot reply, check-all / register-all / await order) is mirrored by the waiter steps G, R, P, not executed; pinned by the source guard in vlib/ptab/channels.py
-// @assume polls use Waker::noop(): "the parked waiter is woken" is established as "NotificationSender::notify was called (next poll Ready)" + C34 (notify wakes the waker of the most recent Pending poll)
-// @assume negated trigger of KF-C32-1: kani::assume(false) on a set_enabled_statuses call that turns the trigger value false -> true while the waiter's sender is registered and not yet notified
-// @enc dcps::status_condition::DcpsStatusCondition::add_communication_state
-// @enc dcps::status_condition::DcpsStatusCondition::remove_communication_state
-// @enc dcps::status_condition::DcpsStatusCondition::set_enabled_statuses
-// @enc dcps::status_condition::DcpsStatusCondition::get_trigger_value
-// @enc dcps::status_condition::DcpsStatusCondition::register_notification
-// @enc dcps::channels::notification::NotificationSender::notify
-// @enc <dcps::channels::notification::NotificationReceiver as Future>::poll
-#[kani::proof]
-#[kani::unwind(14)]
-#[kani::stub(critical_section::acquire, super::support_cs::cs_acquire)]
-#[kani::stub(critical_section::release, super::support_cs::cs_release)]
-#[kani::stub(core::sync::atomic::Atomic::<usize>::fetch_sub, super::support_cs::fetch_sub_never_last)]
-#[kani::stub(alloc::raw_vec::min_non_zero_cap, super::support_cs::min_non_zero_cap_checked)]
-fn c32_wait_interleaved_0010__rest() {
-    wait_interleaved_rest::<0, 0, 1, 0>();
-}
-
-// @check props=C32 tier=quick
-// @desc wake-ups (negated trigger of KF-C32-1): one complete wait call G (get_trigger_value), R (register_notification), P, P (polls of the NotificationReceiver) on a condition with an arbitrary enabled mask, interleaved with symbolic worker operations from {add_communication_state(s), remove_communication_state(s), set_enabled_statuses(m), nothing} in the slots: 1 between the first and the second poll. Asserted: the value read at G and the final trigger value equal "an enabled status has changed"; wait returns immediately if it was true at G; a poll is never Pending while the trigger value is true (no lost wake-up, including a status change between G and R and one after the waiter parked)
-// @bounds 1 condition, 1 waiter, 3 status kinds (mask bits 0, 8, 12), symbolic initial mask, 1 symbolic worker slot(s) + 4 waiter steps; unwind 14 = 13 iterations of the mask loop in DcpsStatusCondition::default() + 1 (all other loops: <= 3 list elements)
-// @assume critical_section::acquire/release stubbed by no-ops (support_cs.rs): a critical section is a block no other operation interleaves with
-// @assume AtomicUsize::fetch_sub stubbed (support_cs.rs fetch_sub_never_last): the shared state behind an Arc is never destroyed or freed; Drop impls of NotificationSender run for real
-// @assume alloc::raw_vec::min_non_zero_cap stubbed by a faithful copy that, after the concrete warm-up (one earlier completed wait: both Vecs of the condition have capacity), asserts amortized Vec growth unreachable (CHECKED obligation, support_cs.rs min_non_zero_cap_checked)
-// @assume every access to the status condition is one atomic step (in the running system: one mail handled by the participant actor, status_condition_methods.rs); the async glue of WaitSetAsync::wait (mail + oneshot reply, check-all / register-all / await order) is mirrored by the waiter steps G, R, P, not executed; pinned by the source guard in vlib/ptab/channels.py
-// @assume polls use Waker::noop(): "the parked waiter is woken" is established as "NotificationSender::notify was called (next poll Ready)" + C34 (notify wakes the waker of the most recent Pending poll)
-// @assume negated trigger of KF-C32-1: kani::assume(false) on a set_enabled_statuses call that turns the trigger value false -> true while the waiter's sender is registered and not yet notified
-// @enc dcps::status_condition::DcpsStatusCondition::add_communication_state
-// @enc dcps::status_condition::DcpsStatusCondition::remove_communication_state
-// @enc dcps::status_condition::DcpsStatusCondition::set_enabled_statuses
-// @enc dcps::status_condition::DcpsStatusCondition::get_trigger_value
-// @enc dcps::status_condition::DcpsStatusCondition::register_notification
-// @enc dcps::channels::notification::NotificationSender::notify
-// @enc <dcps::channels::notification::NotificationReceiver as Future>::poll
-#[kani::proof]
-#[kani::unwind(14)]
-#[kani::stub(critical_section::acquire, super::support_cs::cs_acquire)]
-#[kani::stub(critical_section::release, super::support_cs::cs_release)]
-#[kani::stub(core::sync::atomic::Atomic::<usize>::fetch_sub, super::support_cs::fetch_sub_never_last)]
-#[kani::stub(alloc::raw_vec::min_non_zero_cap, super::support_cs::min_non_zero_cap_checked)]
-fn c32_wait_interleaved_0001__rest() {
-    wait_interleaved_rest::<0, 0, 0, 1>();
-}
-
-// @check props=C32 tier=quick known=KF-C32-1
-// @desc wake-ups (trigger of KF-C32-1): set_enabled_statuses(m0), add_communication_state(s) with s disabled in m0, waiter G (false), R, optionally P (Pending), then set_enabled_statuses(m1) that enables s: the waiter must be notified (next poll Ready). Expected to FAIL: set_enabled_statuses does not notify registered waiters
-// @bounds one operation sequence, symbolic m0, s, m1, symbolic "waiter parked" flag; 3 status kinds; unwind 14
-// @assume critical_section::acquire/release stubbed by no-ops (support_cs.rs): a critical section is a block no other operation interleaves with
-// @assume AtomicUsize::fetch_sub stubbed (support_cs.rs fetch_sub_never_last): the shared state behind an Arc is never destroyed or freed; Drop impls of NotificationSender run for real
-// @assume alloc::raw_vec::min_non_zero_cap stubbed by a faithful copy that, after the concrete warm-up (one earlier completed wait: both Vecs of the condition have capacity), asserts amortized Vec growth unreachable (CHECKED obligation, support_cs.rs min_non_zero_cap_checked)
-// @assume every access to the status condition is one atomic step (in the running system: one mail handled by the participant actor, status_condition_methods.rs); the async glue of WaitSetAsync::wait (mail + oneshot reply, check-all / register-all / await order) is mirrored by the waiter steps G, R, P, not executed; pinned by the source guard in vlib/ptab/channels.py
-// @assume polls use Waker::noop(): "the parked waiter is woken" is established as "NotificationSender::notify was called (next poll Ready)" + C34 (notify wakes the waker of the most recent Pending poll)
-// @assume trigger: set_enabled_statuses turns the trigger value false -> true while the waiter's sender is registered and not yet notified
-// @enc dcps::status_condition::DcpsStatusCondition::add_communication_state
-// @enc dcps::status_condition::DcpsStatusCondition::remove_communication_state
-// @enc dcps::status_condition::DcpsStatusCondition::set_enabled_statuses
-// @enc dcps::status_condition::DcpsStatusCondition::get_trigger_value
-// @enc dcps::status_condition::DcpsStatusCondition::register_notification
-// @enc dcps::channels::notification::NotificationSender::notify
-// @enc <dcps::channels::notification::NotificationReceiver as Future>::poll
-#[kani::proof]
-#[kani::unwind(14)]
-#[kani::stub(critical_section::acquire, super::support_cs::cs_acquire)]
-#[kani::stub(critical_section::release, super::support_cs::cs_release)]
-#[kani::stub(core::sync::atomic::Atomic::<usize>::fetch_sub, super::support_cs::fetch_sub_never_last)]
-#[kani::stub(alloc::raw_vec::min_non_zero_cap, super::support_cs::min_non_zero_cap_checked)]
-fn c32_enable_after_register__known() {
-    enable_after_register();
-}
-
-// =====================================================================================
-// thorough tier: two symbolic worker slots, longer trigger-value schedule
-// =====================================================================================
-
-// @check props=C32 tier=thorough timeout=1500
-// @desc wake-ups (negated trigger of KF-C32-1): one complete wait call G (get_trigger_value), R (register_notification), P, P (polls of the NotificationReceiver) on a condition with an arbitrary enabled mask, interleaved with symbolic worker operations from {add_communication_state(s), remove_communication_state(s), set_enabled_statuses(m), nothing} in the slots: 1 before the check (G); 1 between the first and the second poll. Asserted: the value read at G and the final trigger value equal "an enabled status has changed"; wait returns immediately if it was true at G; a poll is never Pending while the trigger value is true (no lost wake-up, including a status change between G and R and one after the waiter parked)
-// @bounds 1 condition, 1 waiter, 3 status kinds (mask bits 0, 8, 12), symbolic initial mask, 2 symbolic worker slot(s) + 4 waiter steps; unwind 14 = 13 iterations of the mask loop in DcpsStatusCondition::default() + 1 (all other loops: <= 3 list elements)
-// @assume critical_section::acquire/release stubbed by no-ops (support_cs.rs): a critical section is a block no other operation interleaves with
-// @assume AtomicUsize::fetch_sub stubbed (support_cs.rs fetch_sub_never_last): the shared state behind an Arc is never destroyed or freed; Drop impls of NotificationSender run for real
-// @assume alloc::raw_vec::min_non_zero_cap stubbed by a faithful copy that, after the concrete warm-up (one earlier completed wait: both Vecs of the condition have capacity), asserts amortized Vec growth unreachable (CHECKED obligation, support_cs.rs min_non_zero_cap_checked)
-// @assume every access to the status condition is one atomic step (in the running system: one mail handled by the participant actor, status_condition_methods.rs); the async glue of WaitSetAsync::wait (mail + oneshot reply, check-all / register-all / await order) is mirrored by the waiter steps G, R, P, not executed; pinned by the source guard in vlib/ptab/channels.py
-// @assume polls use Waker::noop(): "the parked waiter is woken" is established as "NotificationSender::notify was called (next poll Ready)" + C34 (notify wakes the waker of the most recent Pending poll)
-// @assume negated trigger of KF-C32-1: kani::assume(false) on a set_enabled_statuses call that turns the trigger value false -> true while the waiter's sender is registered and not yet notified
-// @enc dcps::status_condition::DcpsStatusCondition::add_communication_state
-// @enc dcps::status_condition::DcpsStatusCondition::remove_communication_state
-// @enc dcps::status_condition::DcpsStatusCondition::set_enabled_statuses
-// @enc dcps::status_condition::DcpsStatusCondition::get_trigger_value
-// @enc dcps::status_condition::DcpsStatusCondition::register_notification
-// @enc dcps::channels::notification::NotificationSender::notify
-// @enc <dcps::channels::notification::NotificationReceiver as Future>::poll
-#[kani::proof]
-#[kani::unwind(14)]
-#[kani::stub(critical_section::acquire, super::support_cs::cs_acquire)]
-#[kani::stub(critical_section::release, super::support_cs::cs_release)]
-#[kani::stub(core::sync::atomic::Atomic::<usize>::fetch_sub, super::support_cs::fetch_sub_never_last)]
-#[kani::stub(alloc::raw_vec::min_non_zero_cap, super::support_cs::min_non_zero_cap_checked)]
-fn c32_wait_interleaved_1001__rest() {
-    wait_interleaved_rest::<1, 0, 0, 1>();
-}
-
-// @check props=C32 tier=thorough timeout=1500
-// @desc wake-ups (negated trigger of KF-C32-1): one complete wait call G (get_trigger_value), R (register_notification), P, P (polls of the NotificationReceiver) on a condition with an arbitrary enabled mask, interleaved with symbolic worker operations from {add_communication_state(s), remove_communication_state(s), set_enabled_statuses(m), nothing} in the slots: 1 between check (G) and register (R); 1 between the first and the second poll. Asserted: the value read at G and the final trigger value equal "an enabled status has changed"; wait returns immediately if it was true at G; a poll is never Pending while the trigger value is true (no lost wake-up, including a status change between G and R and one after the waiter parked)
-// @bounds 1 condition, 1 waiter, 3 status kinds (mask bits 0, 8, 12), symbolic initial mask, 2 symbolic worker slot(s) + 4 waiter steps; unwind 14 = 13 iterations of the mask loop in DcpsStatusCondition::default() + 1 (all other loops: <= 3 list elements)
-// @assume critical_section::acquire/release stubbed by no-ops (support_cs.rs): a critical section is a block no other operation interleaves with
-// @assume AtomicUsize::fetch_sub stubbed (support_cs.rs fetch_sub_never_last): the shared state behind an Arc is never destroyed or freed; Drop impls of NotificationSender run for real
-// @assume alloc::raw_vec::min_non_zero_cap stubbed by a faithful copy that, after the concrete warm-up (one earlier completed wait: both Vecs of the condition have capacity), asserts amortized Vec growth unreachable (CHECKED obligation, support_cs.rs min_non_zero_cap_checked)
-// @assume every access to the status condition is one atomic step (in the running system: one mail handled by the participant actor, status_condition_methods.rs); the async glue of WaitSetAsync::wait (mail + oneshot reply, check-all / register-all / await order) is mirrored by the waiter steps G, R, P, not executed; pinned by the source guard in vlib/ptab/channels.py
-// @assume polls use Waker::noop(): "the parked waiter is woken" is established as "NotificationSender::notify was called (next poll Ready)" + C34 (notify wakes the waker of the most recent Pending poll)
-// @assume negated trigger of KF-C32-1: kani::assume(false) on a set_enabled_statuses call that turns the trigger value false -> true while the waiter's sender is registered and not yet notified
-// @enc dcps::status_condition::DcpsStatusCondition::add_communication_state
-// @enc dcps::status_condition::DcpsStatusCondition::remove_communication_state
-// @enc dcps::status_condition::DcpsStatusCondition::set_enabled_statuses
-// @enc dcps::status_condition::DcpsStatusCondition::get_trigger_value
-// @enc dcps::status_condition::DcpsStatusCondition::register_notification
-// @enc dcps::channels::notification::NotificationSender::notify
-// @enc <dcps::channels::notification::NotificationReceiver as Future>::poll
-#[kani::proof]
-#[kani::unwind(14)]
-#[kani::stub(critical_section::acquire, super::support_cs::cs_acquire)]
-#[kani::stub(critical_section::release, super::support_cs::cs_release)]
-#[kani::stub(core::sync::atomic::Atomic::<usize>::fetch_sub, super::support_cs::fetch_sub_never_last)]
-#[kani::stub(alloc::raw_vec::min_non_zero_cap, super::support_cs::min_non_zero_cap_checked)]
-fn c32_wait_interleaved_0101__rest() {
-    wait_interleaved_rest::<0, 1, 0, 1>();
-}
-
-// @check props=C32 tier=thorough timeout=1500
-// @desc wake-ups (negated trigger of KF-C32-1): one complete wait call G (get_trigger_value), R (register_notification), P, P (polls of the NotificationReceiver) on a condition with an arbitrary enabled mask, interleaved with symbolic worker operations from {add_communication_state(s), remove_communication_state(s), set_enabled_statuses(m), nothing} in the slots: 1 before the check (G); 1 between check (G) and register (R). Asserted: the value read at G and the final trigger value equal "an enabled status has changed"; wait returns immediately if it was true at G; a poll is never Pending while the trigger value is true (no lost wake-up, including a status change between G and R and one after the waiter parked)
-// @bounds 1 condition, 1 waiter, 3 status kinds (mask bits 0, 8, 12), symbolic initial mask, 2 symbolic worker slot(s) + 4 waiter steps; unwind 14 = 13 iterations of the mask loop in DcpsStatusCondition::default() + 1 (all other loops: <= 3 list elements)
-// @assume critical_section::acquire/release stubbed by no-ops (support_cs.rs): a critical section is a block no other operation interleaves with
-// @assume AtomicUsize::fetch_sub stubbed (support_cs.rs fetch_sub_never_last): the shared state behind an Arc is never destroyed or freed; Drop impls of NotificationSender run for real
-// @assume alloc::raw_vec::min_non_zero_cap stubbed by a faithful copy that, after the concrete warm-up (one earlier completed wait: both Vecs of the condition have capacity), asserts amortized Vec growth unreachable (CHECKED obligation, support_cs.rs min_non_zero_cap_checked)
-// @assume every access to the status condition is one atomic step (in the running system: one mail handled by the participant actor, status_condition_methods.rs); the async glue of WaitSetAsync::wait (mail + oneshot reply, check-all / register-all / await order) is mirrored by the waiter steps G, R, P, not executed; pinned by the source guard in vlib/ptab/channels.py
-// @assume polls use Waker::noop(): "the parked waiter is woken" is established as "NotificationSender::notify was called (next poll Ready)" + C34 (notify wakes the waker of the most recent Pending poll)
-// @assume negated trigger of KF-C32-1: kani::assume(false) on a set_enabled_statuses call that turns the trigger value false -> true while the waiter's sender is registered and not yet notified
-// @enc dcps::status_condition::DcpsStatusCondition::add_communication_state
-// @enc dcps::status_condition::DcpsStatusCondition::remove_communication_state
-// @enc dcps::status_condition::DcpsStatusCondition::set_enabled_statuses
-// @enc dcps::status_condition::DcpsStatusCondition::get_trigger_value
-// @enc dcps::status_condition::DcpsStatusCondition::register_notification
-// @enc dcps::channels::notification::NotificationSender::notify
-// @enc <dcps::channels::notification::NotificationReceiver as Future>::poll
-#[kani::proof]
-#[kani::unwind(14)]
-#[kani::stub(critical_section::acquire, super::support_cs::cs_acquire)]
-#[kani::stub(critical_section::release, super::support_cs::cs_release)]
-#[kani::stub(core::sync::atomic::Atomic::<usize>::fetch_sub, super::support_cs::fetch_sub_never_last)]
-#[kani::stub(alloc::raw_vec::min_non_zero_cap, super::support_cs::min_non_zero_cap_checked)]
-fn c32_wait_interleaved_1100__rest() {
-    wait_interleaved_rest::<1, 1, 0, 0>();
-}
-
-// @check props=C32 tier=thorough timeout=1500
-// @desc wake-ups (negated trigger of KF-C32-1): one complete wait call G (get_trigger_value), R (register_notification), P, P (polls of the NotificationReceiver) on a condition with an arbitrary enabled mask, interleaved with symbolic worker operations from {add_communication_state(s), remove_communication_state(s), set_enabled_statuses(m), nothing} in the slots: 1 between register (R) and the first poll; 1 between the first and the second poll. Asserted: the value read at G and the final trigger value equal "an enabled status has changed"; wait returns immediately if it was true at G; a poll is never Pending while the trigger value is true (no lost wake-up, including a status change between G and R and one after the waiter parked)
-// @bounds 1 condition, 1 waiter, 3 status kinds (mask bits 0, 8, 12), symbolic initial mask, 2 symbolic worker slot(s) + 4 waiter steps; unwind 14 = 13 iterations of the mask loop in DcpsStatusCondition::default() + 1 (all other loops: <= 3 list elements)
-// @assume critical_section::acquire/release stubbed by no-ops (support_cs.rs): a critical section is a block no other operation interleaves with
-// @assume AtomicUsize::fetch_sub stubbed (support_cs.rs fetch_sub_never_last): the shared state behind an Arc is never destroyed or freed; Drop impls of NotificationSender run for real
-// @assume alloc::raw_vec::min_non_zero_cap stubbed by a faithful copy that, after the concrete warm-up (one earlier completed wait: both Vecs of the condition have capacity), asserts amortized Vec growth unreachable (CHECKED obligation, support_cs.rs min_non_zero_cap_checked)
-// @assume every access to the status condition is one atomic step (in the running system: one mail handled by the participant actor, status_condition_methods.rs); the async glue of WaitSetAsync::wait (mail + oneshot reply, check-all / register-all / await order) is mirrored by the waiter steps G, R, P, not executed; pinned by the source guard in vlib/ptab/channels.py
-// @assume polls use Waker::noop(): "the parked waiter is woken" is established as "NotificationSender::notify was called (next poll Ready)" + C34 (notify wakes the waker of the most recent Pending poll)
-// @assume negated trigger of KF-C32-1: kani::assume(false) on a set_enabled_statuses call that turns the trigger value false -> true while the waiter's sender is registered and not yet notified
-// @enc dcps::status_condition::DcpsStatusCondition::add_communication_state
-// @enc dcps::status_condition::DcpsStatusCondition::remove_communication_state
-// @enc dcps::status_condition::DcpsStatusCondition::set_enabled_statuses
-// @enc dcps::status_condition::DcpsStatusCondition::get_trigger_value
-// @enc dcps::status_condition::DcpsStatusCondition::register_notification
-// @enc dcps::channels::notification::NotificationSender::notify
-// @enc <dcps::channels::notification::NotificationReceiver as Future>::poll
-#[kani::proof]
-#[kani::unwind(14)]
-#[kani::stub(critical_section::acquire, super::support_cs::cs_acquire)]
-#[kani::stub(critical_section::release, super::support_cs::cs_release)]
-#[kani::stub(core::sync::atomic::Atomic::<usize>::fetch_sub, super::support_cs::fetch_sub_never_last)]
-#[kani::stub(alloc::raw_vec::min_non_zero_cap, super::support_cs::min_non_zero_cap_checked)]
-fn c32_wait_interleaved_0011__rest() {
-    wait_interleaved_rest::<0, 0, 1, 1>();
 }
 
 // @check props=C32 tier=thorough timeout=1500
